@@ -122,6 +122,9 @@ def run(ctx):
                        "returned": o2.get("rec"), "truth": o2.get("truth"), "detail": j2[2] if j2 and j2[0] == "violation" else detail,
                        "specs": [list(map(list, s)) for s in c2["specs"]], "tree": tree_json(c2["tree"]),
                        "how": "vh-kfltext redact ; input line = {\"q\": query, \"r\": record}"})
+    coq_ok = not ({"Base/Prelude.v", "KflText/Macro.v", "KflText/Redact.v", "KflText/RJson.v"} & failed)
+    if coq_ok:
+        correspondence(ctx, cases, res, bool(first))
     mid = cases[len(cases) // 2]
     ctx.sample({"kind": "redact", "query": mid["query"], "record": mid["record"][:400], "returned": res[len(cases) // 2].get("rec", "")[:400]})
     ctx.cov["known_classes_seen"] = known_witness
@@ -157,6 +160,46 @@ def replay_known(ctx):
             ctx.known_finding(f.get("id", f["class"]), "[%s: %s] %s" % (bad[0], bad[1], f.get("text", "")))
         else:
             ctx.note("known finding %s no longer reproduces on its witness" % f.get("id"))
+
+
+def correspondence(ctx, cases, res, explained):
+    """K: the Coq model (Redact.v with the concrete JSON / base64 instances of RJson.v) returns the
+    record that the implementation returned, compared after canonical re-rendering of the nested
+    documents."""
+    sel = []
+    for c, o in zip(cases, res):
+        if o["panic"] or o["err"] or not K.model_comparable(c):
+            continue
+        try:
+            got = K.canonical(json.loads(o["rec"]))
+            rec = json.loads(c["record"])
+        except Exception:
+            continue
+        if K.canonical(rec) != rec:
+            continue
+        sel.append((c, rec, got))
+    limit = 400 if ctx.tier == "quick" else 6000
+    if len(sel) > limit:
+        sel = ctx.rng.sample(sel, limit)
+    bad = []
+    for k in range(0, len(sel), 500):
+        chunk = sel[k:k + 500]
+        terms = ["(%s,\n  [%s],\n  %s)" % (K.jv_term(rec), "; ".join(K.segs_term(sp) for sp in c["specs"]), K.jv_term(got)) for c, rec, got in chunk]
+        src = (K.COQ_STR_HEAD + "Require Import V.Base.Prelude V.KflText.Macro V.KflText.Redact V.KflText.RJson.\n" + K.COQ_STR_DEF +
+               "Definition cases : list (jv * list (list seg) * jv) := [\n" + ";\n".join(terms) + "].\n"
+               "Definition chk (c : jv * list (list seg) * jv) := let '(r, args, out) := c in jv_eqb (redact_json r args) out.\n"
+               "Definition M := Eval vm_compute in failing chk cases.\nPrint M.\n")
+        rc, out = ctx.coq_run("redact_cases_%d" % k, src)
+        idx = vlib.parse_coq_list_of_nat(out, "M")
+        if rc != 0 or idx is None:
+            ctx.broken.append("K_redact: coqc failed on the case file")
+            ctx.log(out[-800:])
+            return
+        bad += [k + i for i in idx]
+    ctx.cov["traces_validated_against_impl"] = len(sel)
+    if bad and not explained:
+        c, rec, got = sel[bad[0]]
+        ctx.broken.append("K_redact: model and implementation differ on %s over %s (implementation: %s)" % (c["query"], c["record"], json.dumps(got)))
 
 
 def tree_json(t):
